@@ -87,6 +87,47 @@ def posDef (M : Mat) : Bool := posDefAux M.length M
 
 def matOfFn (n : Nat) (P : Nat → Nat → Rat) : Mat := QMat.ofFn n n P
 
+/-! ### certificates (second pass): the leaf algorithms `QMat.inverse`, `QMat.rank`, `posDef` are not trusted —
+    their answers are accepted only together with an exactly checked certificate, and the theorems of
+    `Props/C10_cert.lean` are about the certificates. -/
+
+/-- certificate check `A · B = I` on the leading `n × n` block -/
+def mulIsIdent (n : Nat) (A B : Nat → Nat → Rat) : Bool :=
+  allTo n (fun i => allTo n (fun j => sumTo n (fun k => A i k * B k j) == (if i = j then 1 else 0)))
+
+/-- full-rank certificate: an exact two-sided inverse is exhibited and checked -/
+def fullRankCert (n : Nat) (M : Mat) : Bool :=
+  match QMat.inverse M with
+  | some X => mulIsIdent n (matFn M) (matFn X) && mulIsIdent n (matFn X) (matFn M)
+  | none => false
+
+/-- `matrix_rank` as the model reports it: `n` when the full-rank certificate checks, the row-reduction count otherwise -/
+def reportedRank (n : Nat) (M : Mat) : Nat := if fullRankCert n M then n else QMat.rank M
+
+/-- `L D Lᵀ` factorisation (no pivoting) of the lower triangle; `L` unit lower triangular.  Stops producing sensible
+    numbers at a zero pivot — the result is only used through `ldlCheck`. -/
+def ldl (n : Nat) (P : Nat → Nat → Rat) : Array (Array Rat) × Array Rat :=
+  (List.range n).foldl (fun (acc : Array (Array Rat) × Array Rat) j =>
+    let L := acc.1
+    let d := acc.2
+    let Lj := L.getD j #[]
+    let dj := (List.range j).foldl (fun s k => s - Lj.getD k 0 * Lj.getD k 0 * d.getD k 0) (P j j)
+    let L1 := L.setIfInBounds j (Lj.setIfInBounds j 1)
+    let L2 := (List.range (n - (j + 1))).foldl (fun (Lacc : Array (Array Rat)) t =>
+        let i := j + 1 + t
+        let Li := Lacc.getD i #[]
+        let lij := (List.range j).foldl (fun s k => s - Li.getD k 0 * Lj.getD k 0 * d.getD k 0) (P i j)
+        Lacc.setIfInBounds i (Li.setIfInBounds j (lij / dj))) L1
+    (L2, d.setIfInBounds j dj)) (Array.replicate n (Array.replicate n 0), Array.replicate n 0)
+
+/-- certificate check: `P = L · diag(d) · Lᵀ` entry-wise on `n × n` and every `d_k > 0` -/
+def ldlCheck (n : Nat) (P L : Nat → Nat → Rat) (d : Nat → Rat) : Bool :=
+  allTo n (fun i => allTo n (fun j => P i j == sumTo n (fun k => L i k * d k * L j k))) && allTo n (fun k => decide (0 < d k))
+
+/-- positive definiteness with certificate: the `L D Lᵀ` factors are computed and checked exactly -/
+def posDefCert (n : Nat) (P : Nat → Nat → Rat) : Bool :=
+  ldlCheck n P (fun i k => ((ldl n P).1.getD i #[]).getD k 0) (fun k => (ldl n P).2.getD k 0)
+
 /-! ## the unit precision, branch by branch -/
 
 /-- the unit precision in the form the sampler and the density use it -/
@@ -94,9 +135,25 @@ inductive UnitPrec
   | scalar (c1 : Rat)
   | diag (w : List Rat)
   | full (P : Mat) (rank : Nat)
-  deriving Repr
+  deriving DecidableEq, Repr
 
 def squareOf (n : Nat) (M : Mat) : Bool := M.length = n && M.all (fun r => r.length = n)
+
+/-- branch 4 (full dense matrix that passed the symmetry test): Cholesky of the precision, resp. of `inv(cov)`;
+    every leaf answer is accepted only with its certificate (`posDefCert`, `mulIsIdent`). -/
+def fullPrecOf (w : Wiring) (n : Nat) (M : Mat) : Except PErr UnitPrec :=
+  match w with
+  | .prec =>
+    let S := matOfFn n (lowerSym (matFn M))
+    if posDef S && posDefCert n (lowerSym (matFn M)) then .ok (.full S (reportedRank n M)) else .error .notPD
+  | .cov =>
+    match QMat.inverse M with
+    | none => .error .singular
+    | some Pinv =>
+      if !mulIsIdent n (matFn M) (matFn Pinv) then .error .singular    -- certificate of `inv(cov)`
+      else
+        let S := matOfFn n (lowerSym (matFn Pinv))
+        if posDef S && posDefCert n (lowerSym (matFn Pinv)) then .ok (.full S (reportedRank n M)) else .error .notPD
 
 /-- `get_sqrtprec_from_prec` / `get_sqrtprec_from_cov` at hyper-parameter 1, for a distribution of
     dimension `n` (dense storage of full matrices: `n ≤ 75`). -/
@@ -118,16 +175,7 @@ def unitPrecOf (w : Wiring) (n : Nat) : PVal → Except PErr UnitPrec
       let P := matFn M
       if isDiagonal n P then .ok (.diag ((List.range n).map (fun i => unitPrec w (P i i))))
       else if !symClose n P then .error .asym
-      else match w with
-        | .prec =>
-          let S := matOfFn n (lowerSym P)
-          if posDef S then .ok (.full S (QMat.rank M)) else .error .notPD
-        | .cov =>
-          match QMat.inverse M with
-          | none => .error .singular
-          | some Pinv =>
-            let S := matOfFn n (lowerSym (matFn Pinv))
-            if posDef S then .ok (.full S (QMat.rank M)) else .error .notPD
+      else fullPrecOf w n M
 
 /-- the `Quad` of a Gaussian likelihood with unit precision `U` on `n` components: the sampler
     (`‖L(Ax-b)‖²`) and the density (`Gaussian._logupdf`) use the same `sqrtprec`. -/
